@@ -14,7 +14,7 @@ CHECKS = {
         note="Std* layer trusted only as far as it was validated against rustc's format_args! on every enumerated "
              "literal (spec/validated/*.json, redone when the spec or the case set changes); characters are class "
              "representatives; TLC, the in-process harness (#[path]-included working-tree sources) and rustc are trusted.",
-        technique="TLA+ spec (FmtGrammar) + TLC exhaustive enumeration, spec->impl replay and impl->spec trace validation",
+        technique="TLA+ spec (FmtGrammar) + TLC exhaustive enumeration, spec->impl replay and impl->spec trace validation; the implicit counter also as an unbounded machine (FmtCounter: Apalache inductive invariant, TLAPS proof, tied to FmtGrammar by TLC)",
         design="4 (C03)"),
     "C16": dict(
         text="TLC model-checks ExprSplit.tla (transcription of the hand-written argument scanner vs ground truth known by "
@@ -45,7 +45,7 @@ CHECKS = {
              "table, which is itself checked against rustc's `as` cast / in-memory tag; generic enums exercise the header.",
         note="discriminant expressions limited to literals, unary minus, <<, |, + on small constants; rustc is the ground "
              "truth for discriminant values; TLC integers are 32-bit so wide reprs are modelled by small values.",
-        technique="TLA+ spec (TryFromRepr) + TLC exhaustive enums, replay as real enums over full integer domains",
+        technique="TLA+ spec (TryFromRepr) + TLC exhaustive enums, replay as real enums over full integer domains; the discriminant reconstruction also as an unbounded machine (DiscCounter: Apalache inductive invariant, TLAPS proof, tied to TryFromRepr by TLC)",
         design="4 (C12)"),
     "C05": dict(
         text="TLC model-checks FmtTransparent.tla (the property's iff - exactly one bare placeholder referring to its only "
